@@ -296,7 +296,9 @@ theorem genesis_invStaking {cfg : Config} {params : Params} {accounts : List (Ad
       · exact absurd hval (by intro h; cases h)
       · split at hval
         · exact absurd hval (by intro h; cases h)
-        · next hdv =>
+        · next hcv =>
+          have hdv := (genesisValidatorsError_none _ _ hcv).2.1
+          have hdc := (genesisValidatorsError_none _ _ hcv).2.2
           split at hval
           · exact absurd hval (by intro h; cases h)
           · next hda =>
